@@ -16,7 +16,7 @@ REQUIRED_THEOREMS = [
     "Cv.C16.interp_left_panic", "Cv.C16.interp_left_fill", "Cv.C16.interp_left_extrapolate",
     "Cv.C16.interp_right_panic", "Cv.C16.interp_right_fill", "Cv.C16.interp_right_extrapolate",
     "Cv.C16.checked_rejects_length", "Cv.C16.checked_rejects_unsorted", "Cv.C16.checked_eq_unchecked",
-    "Cv.C16.panic_mode_rejects", "Cv.C16.checked_total", "Cv.C16.interpAll_eq_some_iff", "Cv.C16.interpAll_eq_none_iff",
+    "Cv.C16.panic_mode_rejects", "Cv.C16.checked_total", "Cv.C16.sortedOk_of_nondecreasing", "Cv.C16.interpAll_eq_some_iff", "Cv.C16.interpAll_eq_none_iff",
 ]
 RULE = ("knot counts 2..200, strictly increasing abscissae with neighbouring spacing ratios up to 1e6, finite ordinates of "
         "mixed magnitude; targets at every kind of position (knots, midpoints, +-1 ulp around knots, random interior, just "
@@ -27,8 +27,14 @@ NOT_PROVED = [
     "floating-point rounding of the interior and extrapolation formulas (oracle: exact rational line value within a forward-error bound)",
     "exactness at knots in IEEE arithmetic (ratio is exactly 0 or 1; checked exactly by the oracle on every knot target)",
 ]
-TRUSTED = ["IEEE f64 + - * / shared by both executors"]
-ASSUMPTIONS = ["abscissae strictly increasing and finite, ordinates finite, |values| far from overflow (the property's domain); "
+TRUSTED = ["IEEE f64 + - * / shared by both executors",
+           "source tie (Props/SrcTieC16) regenerates only the six per-target arithmetic formulas (slopeLeft, extrapLeft, slopeRight, extrapRight, "
+           "ratio, lerp); the scan, the out-of-range test idx = 0 or t > x[n-1], the mode dispatch AND the index wiring of those formulas (which "
+           "knots and ordinates are passed to them) are hand-written in the model and in the tie theorem, and are covered by the bit-for-bit tie only"]
+ASSUMPTIONS = ["duplicate (equal neighbouring) abscissae are NOT rejected by the checked variant (its test is x[i+1] - x[i] < 0) and lie outside "
+               "every theorem (Knots is strict); the code divides by a zero width there; compared with the model only (stratum ties(model-only), "
+               "witness in Props/C16.lean: [0,1,1,2] at target 1 gives the ordinate of the later knot)",
+               "abscissae strictly increasing and finite, ordinates finite, |values| far from overflow (the property's domain); "
                "other inputs are compared with the model only"]
 
 U = 2.0 ** -53
@@ -500,3 +506,12 @@ srctie.wire(globals(), 'C16')
 PROOF_MODULES = PROOF_MODULES + [m for m in ['Compute.Lemmas.Rounding5', 'Compute.Props.Rounding5'] if m not in PROOF_MODULES]
 REQUIRED_THEOREMS = REQUIRED_THEOREMS + ['Cv.Rounding5.extrapolate_left_error', 'Cv.Rounding5.extrapolate_right_error', 'Cv.Rounding5.extrapolate_cancellation']
 NOT_PROVED = [('rounding of all branches is bounded by theorem in the standard model: inside the range within gamma_8 max|y| and exact at knots (Props/Rounding2); extrapolation within gamma_6 (|slope (t - x_k)| + |y_k|) of the line (Props/Rounding5), and no bound relative to the exact value exists there (extrapolate_cancellation)' if str(x).startswith('rounding of the extrapolation branch') else x) for x in NOT_PROVED]
+
+
+# --- review fixes (owner of C16/C17, after review-d): NOT_PROVED lists what is not proved
+NOT_PROVED = [("rounding OUTSIDE the standard model: FlModel has neither overflow nor underflow, so the proved bounds (inside the range within "
+               "gamma_8 max|y| and exact at knots, Props/Rounding2; extrapolation within gamma_6 (|slope (t - x_k)| + |y_k|), Props/Rounding5; no bound "
+               "relative to the exact extrapolated value exists, extrapolate_cancellation) say nothing once a result or an intermediate leaves "
+               "the normal range; there (e.g. the 2^+-500 scale strata, ordinates 1e-310) the evidence is the oracle bound 16u scale + an absolute "
+               "subnormal slack, the exact scale laws and the bit tie" if str(x).startswith("rounding of all branches is bounded by theorem") else x)
+              for x in NOT_PROVED]
